@@ -7,6 +7,8 @@
 (*            types (through record attributes and Set<>), (3) the `in`    *)
 (*            relation of three actions -- in the empty namespace and in a *)
 (*            namespace with qualified and unqualified references;         *)
+(*   big      the same ten schemas per graph over pseudo-random graphs on   *)
+(*            five or six nodes (DAGs, loop-free, arbitrary; 4 densities);  *)
 (*   names    the same base name declared in two namespaces, shadowing of  *)
 (*            the empty namespace, entity / common type / built-in         *)
 (*            precedence of an unqualified type reference, __cedar::,      *)
@@ -20,9 +22,11 @@
 (***************************************************************************)
 EXTENDS SchemaModel, Json, IOUtils
 
-CONSTANTS Family,     \* "graphs" | "names"
-          NodesN,     \* nodes of the graph families: 3 (every graph: 512) or 4 (65536 graphs, thinned by GStride)
-          GStride
+CONSTANTS Family,     \* "graphs" | "names" | "big"
+          NodesN,     \* nodes of the graph families: 3 (every graph: 512) or 4 (65536 graphs, thinned by GStride); big: 5 or 6
+          GStride,
+          BigK,       \* big: number of pseudo-random graphs on NodesN nodes
+          BigSeed     \* big: seed of the edge hash
 
 N3 == 1..NodesN
 \* a graph is given by one successor bit mask per node
@@ -30,7 +34,17 @@ Masks == 0..(2 ^ NodesN - 1)
 Succ(m) == { j \in N3 : (m \div (2 ^ (j - 1))) % 2 = 1 }
 GraphOf(ms) == { <<i, j>> \in N3 \X N3 : j \in Succ(ms[i]) }
 MaskTuples == { ms \in [N3 -> Masks] : (ms[1] + 7 * ms[2] + 3 * ms[3] + (IF NodesN > 3 THEN 5 * ms[4] ELSE 0)) % GStride = 0 }
-Graphs == { GraphOf(ms) : ms \in MaskTuples }
+\* big: graphs too large to enumerate (2^36 on six nodes) are drawn by a hash of (graph number, edge, seed).  Three
+\* shapes by graph number: forward edges only (a DAG: chains, diamonds, wide fans -- the graphs that RESOLVE, so that the
+\* transitive closures of the resolver and everything downstream of it are exercised on depths > 3), no self-loops,
+\* any edge; four densities.  All arithmetic stays below 2^31 (TLC integers).
+EdgeHash(k, i, j) == LET a == (k * 131 + i * 31 + j * 17 + BigSeed * 977 + 1) % 32749
+                         b == ((((a * a) % 32749) * 13) + (a * 7) + 5) % 32749 IN ((b * b) % 32749) \div 8
+BigDens == <<3, 4, 6, 9>>
+BigGraph(k) == { <<i, j>> \in N3 \X N3 :
+                   /\ EdgeHash(k, i, j) % BigDens[((k \div 3) % 4) + 1] = 0
+                   /\ (IF k % 3 = 0 THEN i < j ELSE IF k % 3 = 1 THEN i # j ELSE TRUE) }
+Graphs == IF Family = "big" THEN { BigGraph(k) : k \in 1..BigK } ELSE { GraphOf(ms) : ms \in MaskTuples }
 A(k, v) == <<[k |-> k, v |-> v]>>
 NoA == <<>>
 Ref(q, n) == [q |-> q, n |-> n]
@@ -47,7 +61,7 @@ Applies(ps, rs, ctx) == [t |-> "some", principals |-> ps, resources |-> rs, cont
 Ns(name, ents, enums, acts, commons) == [name |-> name, annos |-> NoA, entities |-> ents, enums |-> enums, actions |-> acts, commons |-> commons]
 SetToSeqBy(S) == LET RECURSIVE F(_) F(T) == IF T = {} THEN <<>> ELSE LET x == CHOOSE y \in T : TRUE IN <<x>> \o F(T \ {x}) IN F(S)
 
-EN == <<"A", "B", "C", "D">>   CN == <<"T", "U", "V", "W">>   AN == <<"a", "b c", "if", "d">>
+EN == <<"A", "B", "C", "D", "E5", "F">>   CN == <<"T", "U", "V", "W", "X", "Y">>   AN == <<"a", "b c", "if", "d", "", "f::g">>
 
 \* (1) entity parents: node i has parents { j : <<i, j>> \in g }; q = qualifier used in references
 EntGraph(ns, q, g) ==
@@ -74,7 +88,8 @@ ActionGraph(ns, q, g) ==
 \* (2b) common types across namespaces: node 1 = T in the empty namespace, nodes 2, 3 = N::U, N::V.  A reference from
 \* inside N to T is unqualified (it falls through to the empty namespace), from T into N qualified, inside N unqualified
 \* (edge to U) or qualified (edge to V); an entity of N uses U, an action context uses T
-CrossNode == <<[ns |-> "", n |-> "T"], [ns |-> "N", n |-> "U"], [ns |-> "N", n |-> "V"], [ns |-> "N", n |-> "W"]>>
+CrossNode == <<[ns |-> "", n |-> "T"], [ns |-> "N", n |-> "U"], [ns |-> "N", n |-> "V"], [ns |-> "N", n |-> "W"],
+               [ns |-> "N", n |-> "X"], [ns |-> "N", n |-> "Y"]>>
 CrossRef(i, j) == IF i = 1 THEN TRef("N", CrossNode[j].n)
                   ELSE IF j = 1 THEN TRef("", "T") ELSE IF j = 2 THEN TRef("", "U") ELSE TRef("N", CrossNode[j].n)
 CrossType(i, g) == LET js == SetToSeqBy({ k \in N3 : <<i, k>> \in g }) IN
@@ -167,7 +182,7 @@ FeatureSchemas ==
 VARIABLES kind, g, nm, done
 vars == <<kind, g, nm, done>>
 Init == /\ done = FALSE
-        /\ IF Family = "graphs" THEN kind = "graph" /\ g \in Graphs /\ nm = <<>>
+        /\ IF Family \in {"graphs", "big"} THEN kind = "graph" /\ g \in Graphs /\ nm = <<>>
            ELSE \/ kind = "name" /\ g = {}
                    /\ nm \in { x \in { <<a, b, r, s>> : a \in Decl, b \in Decl, r \in DOMAIN NameRefs, s \in BOOLEAN } :
                                 \* an EntityTypeRef in a type position is written like any type name: where a common type of that
